@@ -6,6 +6,10 @@ Two explorations per configuration:
   * full:  every interleaving, made finite by de-duplicating on the implementation's own state (queue contents,
            exit codes, the Python frames of parent and workers inside annet/parallel.py, delivered multiset);
   * pb(k): stateless, at most k preemptions (iterative context bounding), for larger configurations.
+Part callers (E1): the production callers of the pool - annet.api.gen / patch / diff - over a three-device fabric (mc/e2e.py),
+  for every ordered selection of its devices (diff: the ids handed in while the loader knows all three; gen / patch: a
+  loader that knows exactly the selection), with and without the per-host progress callback: one outcome for every
+  submitted id and for no other, failures (one device's generator raises; --tolerate-fails) under `fail`, the rest under `success`.
 """
 from __future__ import annotations
 
@@ -551,6 +555,7 @@ def e4_cfgs(tier):
 
 def blocks(tier, seed):
     bl = cfgs(tier)
+    bl += [{"mode": ("callers",), "api": a, "n": 3, "pool": 1, "max_tasks": 25} for a in ("diff", "gen", "patch")]
     bl += [{"mode": ("e4",), "n": n, "pool": ps, "max_tasks": q, "conform": cf, "raising": [], "tolerate": 1}
            for (n, ps, q, cf) in e4_cfgs(tier)]
     # heavy blocks first for load balancing
@@ -561,6 +566,8 @@ def blocks(tier, seed):
             return base * 4 * (2 if c["max_tasks"] < 25 else 1)
         if m[0] == "e4":
             return base * 6
+        if m[0] == "callers":
+            return 50
         return base * (0.3, 1, 3, 9)[m[1]]
     bl.sort(key=lambda c: -cost(c))
     return bl
@@ -616,10 +623,100 @@ def run_e4(cfg, ctx):
         ctx.notes.append("E4 %r: %d edges of the model graph were not replayed" % ((cfg["n"], cfg["pool"], cfg["max_tasks"]), r["uncovered"]))
 
 
+CALLER_DEVICES = [
+    {"hostname": "f1", "model": "Huawei CE6870-48S6CQ-EI", "old": [["sysname a", []]], "gens": [([["sysname b", []]], False)]},
+    {"hostname": "f2", "model": "Huawei CE6870-48S6CQ-EI", "old": [["sysname a", []], ["vlan 5", []]], "gens": [([["sysname a", []]], False)]},
+    {"hostname": "f3", "model": "Huawei CE6870-48S6CQ-EI", "old": [["sysname c", []]], "gens": [([["sysname c", []]], False)]},
+]
+CALLER_FAILS = 3        # the generator of this device raises
+
+
+def caller_selections():
+    import itertools
+    return [list(sel) for n in (1, 2, 3) for sel in itertools.permutations((1, 2, 3), n)]
+
+
+def judge_callers(api_name, sel, progress, fab):
+    """-> [(sig, detail)] for one call of annet.api.<api_name> (pool of one process: the in-process path of Parallel)"""
+    import logging
+    from annet import api, cli_args
+    from mc import e2e
+    base = fab.loader
+
+    class Restricted(type(base)):
+        device_ids = property(lambda s_: list(sel))
+        devices = property(lambda s_: [fab.devs[i] for i in sel])
+        device_fqdns = property(lambda s_: {i: fab.devs[i].fqdn for i in sel})
+    kw = dict(query=e2e._harness_query(), no_acl_exclusive=True, parallel=1, show_hosts_progress=progress, tolerate_fails=True)
+    logging.getLogger("progress").disabled = True
+    try:
+        if api_name == "diff":
+            args = cli_args.DiffOptions(config=fab.dir, **kw)
+            success, fail = api.diff(args, base, list(sel))
+        elif api_name == "gen":
+            args = cli_args.ShowGenOptions(indent="  ", **kw)
+            success, fail = api.gen(args, Restricted())
+        else:
+            args = cli_args.ShowPatchOptions(config=fab.dir, indent="  ", **kw)
+            success, fail = api.patch(args, Restricted())
+    except Exception as e:  # noqa
+        from mc import core
+        if core.raised_in_harness(e):
+            raise
+        return [({"kind": "caller-raised", "api": "api." + api_name, "exc": type(e).__name__}, repr(e)[:300])]
+    out = []
+    got = sorted(list(success) + list(fail), key=repr)
+    if got != sorted(sel, key=repr):
+        extra = [i for i in got if i not in sel]
+        out.append(({"kind": "caller-outcomes-differ-from-submitted-ids", "api": "api." + api_name,
+                     "shape": "outcomes for ids never submitted" if extra else "ids without outcome or delivered twice"},
+                    "submitted %r, outcomes for %r (success %r, fail %r)" % (sel, got, sorted(success), sorted(fail))))
+        return out
+    want_fail = [i for i in sel if i == CALLER_FAILS]
+    if sorted(fail) != want_fail:
+        out.append(({"kind": "caller-failure-misreported", "api": "api." + api_name},
+                    "submitted %r: failures reported for %r, the generator of %r raises" % (sel, sorted(fail), want_fail)))
+    return out
+
+
+_CALLER_FAB = []
+
+
+def caller_fabric():
+    if not _CALLER_FAB:
+        from mc import e2e
+        fab = e2e.Fabric(CALLER_DEVICES)
+        dev = fab.devs[CALLER_FAILS]
+        g = fab.gens[dev][0]
+
+        def boom(device):
+            raise TaskError("the generator of %s fails" % device.hostname)
+            yield       # noqa
+        setattr(g, "run_" + dev.hw.vendor, boom)
+        _CALLER_FAB.append(fab)
+    return _CALLER_FAB[0]
+
+
+def run_callers(cfg, ctx):
+    fab = caller_fabric()
+    for sel in caller_selections():
+        for progress in (False, True):
+            probs = judge_callers(cfg["api"], sel, progress, fab)
+            ctx.evals += 1
+            ctx.states += 1
+            ctx.nontrivial += int(len(sel) > 1)
+            ctx.outcomes["callers:%s:%s" % (cfg["api"], "ok" if not probs else probs[0][0]["kind"])] += 1
+            for sig, detail in probs[:1]:
+                ctx.violation(sig, {"callers": {"api": cfg["api"], "sel": sel, "progress": progress}}, detail)
+    ctx.sample({"part": "callers", "api": cfg["api"], "selections": len(caller_selections())})
+
+
 def run_block(cfg, ctx):
     mode = cfg["mode"]
     if mode[0] == "e4":
         return run_e4(cfg, ctx)
+    if mode[0] == "callers":
+        return run_callers(cfg, ctx)
     c = {k: v for k, v in cfg.items() if k != "mode"}
     bound = None if mode[0] == "full" else mode[1]
     done, nstates, execs = explore(c, bound, ctx, ctx.violation)
@@ -644,6 +741,9 @@ def replay(case):
         c = Ctx(1e18, "thorough", 0)
         run_e4(dict(case["cfg"], mode=("e4",)), c)
         return [(v["sig"], v["cases"][0]["detail"]) for v in c._viol.values()]
+    if "callers" in case:
+        c = case["callers"]
+        return judge_callers(c["api"], c["sel"], c["progress"], caller_fabric())
     if "real" in case:
         rounds, bad = real_flush_before_exit(30)
         grid = real_pool_grid()
